@@ -83,6 +83,18 @@ def entry_ops(t):
         ("relative_of", {"op": "mod", "base": m("with_path", "/" + t), "m": "relative", "args": []}),
         ("parent_of", {"op": "prop", "base": {"op": "div", "base": {"op": "div", "base": B, "arg": t}, "arg": "k"}, "m": "parent"}),
     ]
+    # the same texts as instances of a str subclass (istr, str-Enum members, Markup ... are documented to be fine)
+    ss = {"t": "strsub", "v": t}
+    out += [
+        ("strsub.ctor", {"op": "ctor", "s": f"http://h/{t}?{t}#{t}", "strsub": True}),
+        ("strsub.with_query_dict", m("with_query", {"t": "dict", "v": [[ss, ss]]})), ("strsub.with_query_dict_list", m("with_query", {"t": "dict", "v": [["k", {"t": "list", "v": [ss, "x"]}]]})),
+        ("strsub.with_query_seq", m("with_query", {"t": "list", "v": [{"t": "tuple", "v": [ss, ss]}]})), ("strsub.with_query_mdict", m("with_query", {"t": "mdict", "v": [[ss, ss]]})),
+        ("strsub.extend_query_dict", m("extend_query", {"t": "dict", "v": [["k", ss]]})), ("strsub.update_query_dict", m("update_query", {"t": "dict", "v": [["k", ss]]})),
+        ("strsub.update_query_seq", m("update_query", {"t": "list", "v": [{"t": "tuple", "v": ["k", ss]}]})), ("strsub.with_query_str", m("with_query", ss)),
+        ("strsub.build_query", b(scheme="http", host="h", query={"t": "dict", "v": [["k", ss]]})), ("strsub.build_texts", b(scheme="http", host="h", user=ss, password=ss, path={"t": "strsub", "v": "/" + t}, fragment=ss)),
+        ("strsub.with_user", m("with_user", ss)), ("strsub.with_password", m("with_password", ss)), ("strsub.with_path", m("with_path", ss)), ("strsub.with_name", m("with_name", ss)),
+        ("strsub.with_fragment", m("with_fragment", ss)), ("strsub.div", {"op": "div", "base": B, "arg": ss}), ("strsub.joinpath", m("joinpath", ss, ss)),
+    ]
     return out
 
 
